@@ -6,6 +6,12 @@ From DV Require Import Lib.Base Auth.Types Gen.AuthTables Auth.Sha1 Wire.Utf8 Au
 Require Import ZifyBool ZifyN ZifyNat.
 Local Open Scope N_scope.
 
+(* simplify record projections of setters only (never arithmetic) *)
+Ltac fs := cbn [a_state a_mech a_identity a_authorized a_desired a_have_keyring a_cookie_id a_challenge a_asked a_failures
+                a_fd_negotiated a_nchal set_state set_mech set_identity set_authorized set_desired set_have_keyring
+                set_cookie_id set_challenge set_asked set_failures set_fd_negotiated set_nchal fst snd send_ok crash send_error
+                core_init c_uid c_pid c_gids in_end_state] in *.
+
 (* a mechanism the server permits: in all_mechanisms under a name that is allowed *)
 Definition permitted (e : env) (m : mech) : Prop :=
   exists name, In (name, m) all_mechanisms /\ mech_allowed e name = true.
@@ -28,7 +34,7 @@ Record Inv (e : env) (a : core) : Prop := mkInv {
            a_authorized a = creds_empty /\ a_desired a = creds_empty /\ a_identity a = [] /\ a_asked a = false /\ a_cookie_id a = None;
   I_data : a_state a = WaitingForData ->
            a_authorized a = creds_empty /\
-           ((a_mech a = Some EXTERNAL /\ a_asked a = true /\ a_identity a = [] /\ a_cookie_id a = None) \/
+           ((a_mech a = Some EXTERNAL /\ a_asked a = true /\ a_identity a = [] /\ a_cookie_id a = None /\ a_desired a = creds_empty) \/
             (a_mech a = Some COOKIE_SHA1 /\ (exists id, a_cookie_id a = Some id) /\
              a_desired a = mkCreds (Some (e_process_uid e)) None None));
   I_begin : a_state a = WaitingForBegin \/ a_state a = Authenticated ->
@@ -51,7 +57,7 @@ Qed.
 
 Lemma Inv_init e : Inv e core_init.
 Proof.
-  constructor; cbn -[N.le N.lt]; intros; try discriminate; try tauto;
+  constructor; fs; intros; try discriminate; try tauto;
     try (unfold max_failures in *; lia); try (destruct H; discriminate).
 Qed.
 
@@ -63,7 +69,7 @@ Lemma shutdown_mech_fields a :
   a_nchal b = a_nchal a /\
   ((a_cookie_id a <> None -> a_mech a = Some COOKIE_SHA1) -> a_cookie_id b = None).
 Proof.
-  unfold shutdown_mech. cbn. destruct (a_mech a) as [[]|] eqn:E; cbn; repeat split; auto;
+  unfold shutdown_mech. fs. destruct (a_mech a) as [[]|] eqn:E; fs; repeat split; auto;
     intros H; destruct (a_cookie_id a); auto; exfalso; (assert (X : Some n <> None) by discriminate); specialize (H X); discriminate.
 Qed.
 
@@ -74,14 +80,14 @@ Lemma Inv_send_rejected e a :
   (a_cookie_id a <> None -> a_mech a = Some COOKIE_SHA1) ->
   Inv e (fst (send_rejected a)).
 Proof.
-  intros Hend Hmax Hf Hk Hc. unfold send_rejected. cbn [fst].
+  intros Hend Hmax Hf Hk Hc. unfold send_rejected. fs.
   destruct (shutdown_mech_fields a) as (H1 & H2 & H3 & H4 & H5 & H6 & H7 & H8 & H9 & H10 & H11).
   specialize (H11 Hc).
   set (b := shutdown_mech a) in *.
   assert (Hlt : a_failures a < max_failures).
   { destruct (N.lt_ge_cases (a_failures a) max_failures) as [?|G]; auto. specialize (Hf G). congruence. }
-  constructor; cbn -[N.le N.lt N.leb].
-  - intros G. rewrite H7 in *. destruct (max_failures <=? a_failures a + 1) eqn:E; cbn; [reflexivity|lia].
+  constructor; fs.
+  - intros G. rewrite H7 in *. destruct (max_failures <=? a_failures a + 1) eqn:E; fs; [reflexivity|lia].
   - rewrite H7. lia.
   - rewrite H8. exact Hk.
   - rewrite H5. intros m X; discriminate.
@@ -111,10 +117,10 @@ Qed.
 
 Lemma Inv_intro_data_ext e b :
   a_state b = WaitingForData -> a_mech b = Some EXTERNAL -> permitted e EXTERNAL -> a_authorized b = creds_empty ->
-  a_asked b = true -> a_identity b = [] -> a_cookie_id b = None ->
+  a_asked b = true -> a_identity b = [] -> a_cookie_id b = None -> a_desired b = creds_empty ->
   a_failures b < max_failures -> (a_have_keyring b = true -> e_keyring_ok e = true) -> Inv e b.
 Proof.
-  intros Hs Hm Hp Ha Hq Hi Hc Hf Hk. constructor; try (rewrite Hs; intros; try discriminate).
+  intros Hs Hm Hp Ha Hq Hi Hc Hd Hf Hk. constructor; try (rewrite Hs; intros; try discriminate).
   - intros G. lia.
   - lia.
   - exact Hk.
@@ -141,7 +147,7 @@ Qed.
 
 Lemma Inv_crash e a : Inv e a -> Inv e (fst (crash a)).
 Proof.
-  intros []. constructor; cbn -[N.le]; auto; try (intros; discriminate).
+  intros []. constructor; fs; auto; try (intros; discriminate).
   intros [X|X]; discriminate.
 Qed.
 
@@ -163,55 +169,265 @@ Proof.
 Qed.
 
 Lemma opt_N_eqb_eq a b : opt_N_eqb a b = true -> a = b.
-Proof. destruct a, b; cbn; try discriminate; auto. intros H. apply N.eqb_eq in H. congruence. Qed.
+Proof. destruct a, b; fs; try discriminate; auto. intros H. apply N.eqb_eq in H. congruence. Qed.
 
 Opaque parse_ulong validate_utf8 sha1 hex_encode dec_of_N.
 
+Lemma MechPre_frame e a b m :
+  MechPre e a m -> a_state b = a_state a -> a_authorized b = a_authorized a -> a_mech b = a_mech a ->
+  a_failures b = a_failures a -> a_have_keyring b = a_have_keyring a -> a_cookie_id b = a_cookie_id a -> MechPre e b m.
+Proof.
+  intros [] H1 H2 H3 H4 H5 H6. constructor.
+  - unfold in_end_state in *. rewrite H1. assumption.
+  - congruence.
+  - congruence.
+  - assumption.
+  - rewrite H4. assumption.
+  - rewrite H5. assumption.
+  - rewrite H6. assumption.
+Qed.
+
+Lemma established_external_sock e s :
+  e_sock e = s -> are_anonymous s = false ->
+  established e EXTERNAL (add_gids_from (add_pid_from (add_credentials creds_empty s) s) s).
+Proof.
+  intros H. subst s. unfold are_anonymous, established. destruct (e_sock e) as [[u|] p g]; cbn; [|discriminate].
+  intros _. exists u. split; [reflexivity|]. destruct p, g; reflexivity.
+Qed.
+
+Lemma established_external_uid e v :
+  are_superset (e_sock e) (mkCreds (Some v) None None) = true ->
+  established e EXTERNAL (add_gids_from (add_pid_from (add_credentials creds_empty (mkCreds (Some v) None None)) (e_sock e)) (e_sock e)).
+Proof.
+  unfold are_superset, established. cbn. rewrite !andb_true_r.
+  destruct (e_sock e) as [[y|] p g]; cbn; [|discriminate].
+  intros H. apply N.eqb_eq in H. subst y. exists v. split; [reflexivity|]. destruct p, g; reflexivity.
+Qed.
+
 Lemma Inv_external e a d :
-  MechPre e a EXTERNAL -> a_cookie_id a = None ->
+  MechPre e a EXTERNAL -> a_cookie_id a = None -> a_desired a = creds_empty ->
   Inv e (fst (external_mech e a d)).
 Proof.
-  intros P Hc. unfold external_mech.
+  intros P Hc Hde. unfold external_mech.
   destruct (are_anonymous (e_sock e)) eqn:Ea; [eapply MechPre_rejected; eauto|].
   destruct (negb (is_empty d) && negb (is_empty (a_identity a))) eqn:E1; [eapply MechPre_rejected; eauto|].
   set (a1 := if negb (is_empty d) then set_identity a d else a).
-  assert (P1 : MechPre e a1 EXTERNAL /\ a_cookie_id a1 = None /\ a_state a1 = a_state a).
-  { unfold a1. destruct (negb (is_empty d)); [|auto]. destruct P. repeat split; cbn; auto. }
-  destruct P1 as (P1 & Hc1 & Hs1). clearbody a1.
+  assert (P1 : MechPre e a1 EXTERNAL /\ a_cookie_id a1 = None /\ a_desired a1 = creds_empty).
+  { unfold a1. destruct (negb (is_empty d)); [|auto]. split; [eapply MechPre_frame; eauto|split; [exact Hc|exact Hde]]. }
+  destruct P1 as (P1 & Hc1 & Hde1). clearbody a1.
   destruct (is_empty (a_identity a1) && negb (a_asked a1)) eqn:E2.
-  - cbn [fst]. apply andb_true_iff in E2. destruct E2 as [E2 E3].
-    destruct P1. apply Inv_intro_data_ext; cbn; auto.
+  - apply andb_true_iff in E2. destruct E2 as [E2 E3].
+    destruct P1. apply Inv_intro_data_ext; fs; auto.
     destruct (a_identity a1); [reflexivity|discriminate].
   - set (a2 := set_desired a1 creds_empty).
-    assert (P2 : MechPre e a2 EXTERNAL /\ a_cookie_id a2 = None /\ a_desired a2 = creds_empty).
-    { destruct P1. repeat split; cbn; auto. }
-    destruct P2 as (P2 & Hc2 & Hd2).
-    assert (Hid : a_identity a2 = a_identity a1) by reflexivity.
+    assert (P2 : MechPre e a2 EXTERNAL) by (eapply MechPre_frame; eauto).
+    assert (Hc2 : a_cookie_id a2 = None) by exact Hc1.
+    assert (Hd2 : a_desired a2 = creds_empty) by reflexivity.
     clearbody a2.
+    assert (Rej : forall dd, Inv e (fst (send_rejected (set_desired a2 dd)))).
+    { intros dd. eapply MechPre_rejected. eapply MechPre_frame; eauto. }
+    assert (Ok : forall dd, established e EXTERNAL (add_gids_from (add_pid_from (add_credentials creds_empty dd) (e_sock e)) (e_sock e)) ->
+                            Inv e (fst (send_ok (set_authorized (set_desired a2 dd)
+                               (add_gids_from (add_pid_from (add_credentials (a_authorized (set_desired a2 dd)) dd) (e_sock e)) (e_sock e)))))).
+    { intros dd Hes. destruct P2. fs. eapply Inv_intro_begin with (m := EXTERNAL); fs; auto; try congruence. }
     destruct (is_empty (a_identity a2)) eqn:E3.
     + (* identity taken from the socket credentials *)
-      set (dd := add_credentials (a_desired a2) (e_sock e)).
-      assert (Hdd : dd = e_sock e).
-      { unfold dd. rewrite Hd2. unfold add_credentials, creds_empty. cbn. destruct (e_sock e) as [[u|] [p|] [g|]]; reflexivity. }
-      destruct (are_anonymous dd) eqn:E4; [destruct P2; apply Inv_send_rejected; cbn; auto; try lia; intros X; congruence|].
-      destruct (are_superset (e_sock e) dd) eqn:E5.
-      * cbn [fst send_ok]. destruct P2.
-        eapply Inv_intro_begin with (m := EXTERNAL); cbn; auto; try congruence.
-        rewrite P_auth0, Hdd. unfold are_anonymous in Ea. destruct (e_sock e) as [[u|] p g]; cbn in *; [|discriminate].
-        exists u. split; [reflexivity|]. destruct p, g; reflexivity.
-      * destruct P2; apply Inv_send_rejected; cbn; auto; try lia; intros X; congruence.
+      rewrite Hd2.
+      assert (Hdd : add_credentials creds_empty (e_sock e) = e_sock e) by (destruct (e_sock e) as [[u|] [p|] [g|]]; reflexivity).
+      rewrite Hdd.
+      rewrite Ea.
+      destruct (are_superset (e_sock e) (e_sock e)); [|apply Rej].
+      apply Ok. rewrite <- Hdd at 1. rewrite Hdd. apply established_external_sock; auto.
     + destruct (parse_ulong (a_identity a2)) as [u|] eqn:E4; [|eapply MechPre_rejected; eauto].
-      set (dd := set_uid (a_desired a2) (uid_of_ulong u)).
-      destruct (are_anonymous dd) eqn:E5; [destruct P2; apply Inv_send_rejected; cbn; auto; try lia; intros X; congruence|].
-      destruct (are_superset (e_sock e) dd) eqn:E6.
-      * cbn [fst send_ok]. destruct P2.
-        eapply Inv_intro_begin with (m := EXTERNAL); cbn; auto; try congruence.
-        rewrite P_auth0. unfold dd in *. rewrite Hd2 in *. cbn in *.
-        destruct (uid_of_ulong u) as [v|]; [|discriminate].
-        unfold are_superset in E6. cbn in E6. rewrite !andb_true_r in E6.
-        destruct (c_uid (e_sock e)) as [y|] eqn:Ey; [|discriminate]. apply N.eqb_eq in E6. subst y.
-        exists v. split; [reflexivity|].
-        destruct (e_sock e) as [su [p|] [g|]]; reflexivity.
-      * destruct P2; apply Inv_send_rejected; cbn; auto; try lia; intros X; congruence.
+      rewrite Hd2. unfold set_uid. cbn [c_pid c_gids creds_empty].
+      destruct (are_anonymous {| c_uid := uid_of_ulong u; c_pid := None; c_gids := None |}) eqn:E5; [apply Rej|].
+      destruct (uid_of_ulong u) as [v|]; [|discriminate].
+      destruct (are_superset (e_sock e) {| c_uid := Some v; c_pid := None; c_gids := None |}) eqn:E6; [|apply Rej].
+      apply Ok. apply established_external_uid. exact E6.
 Qed.
 
+Lemma Inv_anonymous e a d : MechPre e a ANONYMOUS -> a_cookie_id a = None -> Inv e (fst (anonymous_mech e a d)).
+Proof.
+  intros P Hc. unfold anonymous_mech.
+  assert (G : Inv e (fst (send_ok (set_authorized (set_desired a creds_empty)
+                                    (add_pid_from (a_authorized (set_desired a creds_empty)) (e_sock e)))))).
+  { destruct P. fs. eapply Inv_intro_begin with (m := ANONYMOUS); fs; auto; try congruence.
+    rewrite P_auth0. unfold established, add_pid_from, or_else, creds_empty. cbn [c_uid c_pid c_gids].
+    destruct (c_pid (e_sock e)); reflexivity. }
+  destruct (is_empty d); [exact G|].
+  destruct (validate_utf8 d) as [[|]|]; [exact G | eapply MechPre_rejected; eauto |].
+  destruct P. fs. constructor; fs; intros; try discriminate; auto; try lia.
+  - rewrite P_mech0 in H. inversion H; subst; auto.
+  - congruence.
+  - destruct H; discriminate.
+Qed.
+
+Lemma Inv_sha1_first e a d :
+  MechPre e a COOKIE_SHA1 -> a_desired a = creds_empty -> Inv e (fst (sha1_first e a d)).
+Proof.
+  intros P Hd. unfold sha1_first.
+  set (a0 := set_challenge a []).
+  assert (P0 : MechPre e a0 COOKIE_SHA1 /\ a_desired a0 = creds_empty) by (split; [eapply MechPre_frame; eauto|exact Hd]).
+  destruct P0 as [P0 Hd0]. clearbody a0.
+  destruct (negb (is_empty d) && negb (is_empty (a_identity a0))); [eapply MechPre_rejected; eauto|].
+  set (a1 := if negb (is_empty d) then set_identity a0 d else a0).
+  assert (P1 : MechPre e a1 COOKIE_SHA1 /\ a_desired a1 = creds_empty).
+  { unfold a1. destruct (negb (is_empty d)); [|auto]. split; [eapply MechPre_frame; eauto|exact Hd0]. }
+  destruct P1 as [P1 Hd1]. clearbody a1.
+  match goal with |- context [match ?w with Some _ => _ | None => send_rejected a1 end] => destruct w as [u|] end;
+    [|eapply MechPre_rejected; eauto].
+  set (a2 := set_desired a1 (set_uid (a_desired a1) u)).
+  assert (P2 : MechPre e a2 COOKIE_SHA1 /\ a_desired a2 = mkCreds u None None).
+  { split; [eapply MechPre_frame; eauto|]. unfold a2. fs. rewrite Hd1. reflexivity. }
+  destruct P2 as [P2 Hd2]. clearbody a2.
+  destruct (negb (opt_N_eqb (Some (e_process_uid e)) (c_uid (a_desired a2)))) eqn:E3; [eapply MechPre_rejected; eauto|].
+  apply negb_false_iff, opt_N_eqb_eq in E3. rewrite Hd2 in E3. fs. subst u.
+  destruct (negb (a_have_keyring a2) && negb (e_keyring_ok e)) eqn:E4; [eapply MechPre_rejected; eauto|].
+  assert (Hk : e_keyring_ok e = true).
+  { destruct (a_have_keyring a2) eqn:X; [destruct P2; auto|]. cbn [negb andb] in E4. destruct (e_keyring_ok e); [reflexivity|discriminate]. }
+  fs. destruct P2.
+  destruct (e_best_key e (a_nchal a2)) as [id|].
+  - destruct (e_challenge e (a_nchal a2)) as [raw|].
+    + fs. eapply Inv_intro_data_cookie with (id := id); fs; auto.
+    + apply Inv_send_rejected; fs; auto; try lia.
+  - apply Inv_send_rejected; fs; auto; try lia.
+Qed.
+
+Lemma Inv_sha1_second e a id d :
+  MechPre e a COOKIE_SHA1 -> a_desired a = mkCreds (Some (e_process_uid e)) None None ->
+  Inv e (fst (sha1_second e a id d)).
+Proof.
+  intros P Hd. unfold sha1_second.
+  destruct (find_blank d) as [found i].
+  destruct (negb found); [eapply MechPre_rejected; eauto|].
+  destruct (skip_blank (e_asserts e) d i) as [j|].
+  2:{ destruct P. fs. constructor; fs; intros; try discriminate; auto; try lia.
+      - rewrite P_mech0 in H. inversion H; subst; auto.
+      - destruct H; discriminate. }
+  destruct (is_empty (firstn (N.to_nat i) d) || is_empty (skipn (N.to_nat j) d)); [eapply MechPre_rejected; eauto|].
+  destruct (is_empty (sha1_compute_hash e id (a_challenge a) (firstn (N.to_nat i) d))); [eapply MechPre_rejected; eauto|].
+  destruct (negb (bytes_eqb (skipn (N.to_nat j) d) (sha1_compute_hash e id (a_challenge a) (firstn (N.to_nat i) d))));
+    [eapply MechPre_rejected; eauto|].
+  destruct P. fs. eapply Inv_intro_begin with (m := COOKIE_SHA1); fs; auto.
+  rewrite P_auth0, Hd. unfold established, add_pid_from, add_credentials, or_else, creds_empty. cbn [c_uid c_pid c_gids].
+  destruct (c_pid (e_sock e)); reflexivity.
+Qed.
+
+(* the mechanism functions, entered either from handle_auth (fresh) or from WaitingForData *)
+Definition MechState (e : env) (a : core) (m : mech) : Prop :=
+  a_cookie_id a = None /\ a_desired a = creds_empty \/
+  m = COOKIE_SHA1 /\ a_cookie_id a <> None /\ a_desired a = mkCreds (Some (e_process_uid e)) None None.
+
+Lemma Inv_mech_data e a m d : MechPre e a m -> MechState e a m -> Inv e (fst (mech_data e m a d)).
+Proof.
+  intros P S. destruct m; cbn [mech_data].
+  - destruct S as [[Hc Hd]|[X _]]; [|discriminate]. apply Inv_external; auto.
+  - unfold cookie_mech. destruct S as [[Hc Hd]|(_ & Hc & Hd)].
+    + rewrite Hc. apply Inv_sha1_first; auto.
+    + destruct (a_cookie_id a) as [id|]; [|congruence]. apply Inv_sha1_second; auto.
+  - destruct S as [[Hc Hd]|[X _]]; [|discriminate]. apply Inv_anonymous; auto.
+Qed.
+
+Lemma Inv_send_error e a m : Inv e a -> Inv e (fst (send_error a m)).
+Proof. auto. Qed.
+
+Lemma Inv_process_data e a args m : Inv e a -> MechPre e a m -> MechState e a m -> Inv e (fst (process_data e a args m)).
+Proof.
+  intros I P S. unfold process_data. destruct (hex_decode args) as [dec endi].
+  destruct (negb (endi =? nlen args)); [exact I|]. apply Inv_mech_data; auto.
+Qed.
+
+Lemma not_end_lt e a : Inv e a -> in_end_state a = false -> a_failures a < max_failures.
+Proof.
+  intros [] H. destruct (N.lt_ge_cases (a_failures a) max_failures) as [?|G]; auto. specialize (I_fail0 G). congruence.
+Qed.
+
+Lemma Inv_handle_auth e a args : Inv e a -> a_state a = WaitingForAuth -> Inv e (fst (handle_auth e a args)).
+Proof.
+  intros I Hs. assert (Hend : in_end_state a = false) by (unfold in_end_state; rewrite Hs; reflexivity).
+  unfold handle_auth. destruct (is_empty args); [apply Inv_rejected_of_Inv; auto|].
+  destruct (find_blank args) as [fb i].
+  destruct (skip_blank (e_asserts e) args i) as [j|]; [|apply Inv_crash; exact I].
+  pose proof (not_end_lt e a I Hend) as Hlt.
+  destruct I. destruct (I_idle0 Hs) as (Ha & Hd & Hi & Hq & Hc).
+  destruct (find_mech e (firstn (N.to_nat i) args)) as [m|] eqn:Em.
+  - apply find_mech_permitted in Em.
+    assert (P : MechPre e (set_mech a (Some m)) m) by (constructor; fs; auto; congruence).
+    apply Inv_process_data; auto.
+    + constructor; fs; auto; try (intros X; congruence); try (intros [X|X]; congruence);
+        try (intros m' X; inversion X; subst; auto).
+    + left. split; assumption.
+  - apply Inv_send_rejected; fs; auto; congruence.
+Qed.
+
+(* which actions a state's switch may contain for the invariant to survive *)
+Definition action_ok (s : sstate) (act : action) : bool :=
+  match act, s with
+  | A_SendError _, _ | A_SendRejected, _ | A_GotoDisconnect, _ => true
+  | A_HandleAuth, WaitingForAuth => true
+  | A_ProcessData, WaitingForData => true
+  | A_GotoAuthenticated, WaitingForBegin => true
+  | A_NegotiateFd _, WaitingForBegin => true
+  | _, _ => false
+  end.
+
+Lemma disp_auth_ok c : action_ok WaitingForAuth (disp_waiting_for_auth c) = true.
+Proof. destruct c; reflexivity. Qed.
+Lemma disp_data_ok c : action_ok WaitingForData (disp_waiting_for_data c) = true.
+Proof. destruct c; reflexivity. Qed.
+Lemma disp_begin_ok c : action_ok WaitingForBegin (disp_waiting_for_begin c) = true.
+Proof. destruct c; reflexivity. Qed.
+
+Lemma Inv_set_disconnect e a : Inv e a -> Inv e (set_state a NeedDisconnect).
+Proof.
+  intros []. constructor; fs; auto; try (intros; discriminate). intros [X|X]; discriminate.
+Qed.
+
+Lemma Inv_run_action e a act args :
+  Inv e a -> in_end_state a = false -> action_ok (a_state a) act = true -> Inv e (fst (run_action e a act args)).
+Proof.
+  intros I Hend Hok. destruct act; cbn [run_action].
+  - destruct (a_state a) eqn:Hs; try discriminate. apply Inv_handle_auth; auto.
+  - exact I.
+  - apply Inv_rejected_of_Inv; auto.
+  - destruct (a_state a) eqn:Hs; try discriminate.
+    destruct (a_mech a) as [m|] eqn:Hm; [|apply Inv_crash; exact I].
+    pose proof (not_end_lt e a I Hend) as Hlt. pose proof I as I'. destruct I.
+    destruct (I_data0 Hs) as (Ha & [(M & Hq & Hi & Hc & Hd)|(M & [id Hc] & Hd)]).
+    + assert (m = EXTERNAL) by congruence. subst m.
+      apply Inv_process_data; auto.
+      * constructor; auto. congruence.
+      * left. split; auto.
+    + assert (m = COOKIE_SHA1) by congruence. subst m.
+      apply Inv_process_data; auto.
+      * constructor; auto.
+      * right. repeat split; auto. congruence.
+  - apply Inv_set_disconnect. exact I.
+  - destruct (a_state a) eqn:Hs; try discriminate.
+    pose proof (not_end_lt e a I Hend) as Hlt. destruct I.
+    destruct I_begin0 as (m & Hm & He); [left; exact Hs|].
+    fs. constructor; fs; auto; try (intros; discriminate).
+    exists m. split; assumption.
+  - destruct (a_state a) eqn:Hs; try discriminate.
+    destruct (e_fd_possible e); [|exact I].
+    pose proof (not_end_lt e a I Hend) as Hlt. destruct I.
+    destruct I_begin0 as (m & Hm & He); [left; exact Hs|].
+    fs. eapply Inv_intro_begin with (m := m); fs; auto.
+    intros X. apply I_cookie0 in X. congruence.
+Qed.
+
+Lemma Inv_handle e a c args : Inv e a -> Inv e (fst (handle e a c args)).
+Proof.
+  intros I. unfold handle. destruct (a_state a) eqn:Hs; try exact I;
+    apply Inv_run_action; auto; try (unfold in_end_state; rewrite Hs; reflexivity); rewrite Hs.
+  - apply disp_auth_ok.
+  - apply disp_data_ok.
+  - apply disp_begin_ok.
+Qed.
+
+Theorem Inv_process_line e a line : Inv e a -> Inv e (fst (process_line e a line)).
+Proof.
+  intros I. unfold process_line. destruct (negb (validate_ascii line)); [exact I|].
+  destruct (find_blank line) as [fb i].
+  destruct (skip_blank (e_asserts e) line i) as [j|]; [apply Inv_handle; exact I | apply Inv_crash; exact I].
+Qed.
